@@ -601,11 +601,13 @@ def DmigRead.isReal (d : DmigRead) : Bool :=
 
 /-- the values of the DataFrame `rddmig` returns, row index `rows`, column index `cols`: zeros, then
 the assignments; the imaginary part is not read for the real types -/
+def DmigRead.cell (d : DmigRead) (r c : Int × Int) : Val × Val :=
+  match lastAssign d.assign r c with
+  | some (x, y) => (x, if d.isReal then Val.int 0 else y)
+  | none => (Val.int 0, Val.int 0)
+
 def DmigRead.frame (d : DmigRead) : List (List (Val × Val)) :=
-  d.rows.map fun r => d.cols.map fun c =>
-    match lastAssign d.assign r c with
-    | some (x, y) => (x, if d.isReal then Val.int 0 else y)
-    | none => (Val.int 0, Val.int 0)
+  d.rows.map fun r => d.cols.map fun c => d.cell r c
 
 def key (p : Int × Int) : Int := 10 * p.1 + p.2
 
